@@ -10,7 +10,10 @@ use libcnb_data::layer_content_metadata::{LayerContentMetadata, LayerTypes};
 use std::collections::HashMap;
 use std::path::{Path, PathBuf};
 
-pub fn delete_layer(layers_dir: &Path, layer_name: &LayerName) -> Result<(), shared::DeleteLayerError> {
+pub fn delete_layer(
+    layers_dir: &Path,
+    layer_name: &LayerName,
+) -> Result<(), shared::DeleteLayerError> {
     shared::delete_layer(layers_dir, layer_name)
 }
 
